@@ -704,17 +704,17 @@ def viewer_types(R):
 
 # ====================================================================================== stream 4: every (T, v) still loads what it saved
 ASPECTS_DATA = {
-    1: {'labels', 'components', 'values', 'coords', 'masks', 'linked', 'groups'},
-    2: {'labels', 'components', 'values', 'coords', 'masks', 'linked', 'groups', 'styles'},
-    3: {'labels', 'components', 'values', 'coords', 'masks', 'linked', 'groups', 'styles', 'joins'},
-    4: {'labels', 'components', 'values', 'coords', 'masks', 'linked', 'groups', 'styles', 'joins', 'uuid'},
-    5: {'labels', 'components', 'values', 'coords', 'masks', 'linked', 'groups', 'styles', 'joins', 'uuid', 'meta', 'sg_count'},
+    1: {'labels', 'components', 'values', 'coords', 'masks', 'linked', 'links', 'groups'},
+    2: {'labels', 'components', 'values', 'coords', 'masks', 'linked', 'links', 'groups', 'styles'},
+    3: {'labels', 'components', 'values', 'coords', 'masks', 'linked', 'links', 'groups', 'styles', 'joins'},
+    4: {'labels', 'components', 'values', 'coords', 'masks', 'linked', 'links', 'groups', 'styles', 'joins', 'uuid'},
+    5: {'labels', 'components', 'values', 'coords', 'masks', 'linked', 'links', 'groups', 'styles', 'joins', 'uuid', 'meta', 'sg_count'},
 }
 ASPECTS_DC = {
-    1: {'labels', 'components', 'values', 'coords', 'masks', 'linked', 'styles', 'joins', 'uuid', 'meta'},
-    2: {'labels', 'components', 'values', 'coords', 'masks', 'linked', 'styles', 'joins', 'uuid', 'meta', 'groups'},
-    3: {'labels', 'components', 'values', 'coords', 'masks', 'linked', 'styles', 'joins', 'uuid', 'meta', 'groups', 'sg_count'},
-    4: {'labels', 'components', 'values', 'coords', 'masks', 'linked', 'styles', 'joins', 'uuid', 'meta', 'groups', 'sg_count'},
+    1: {'labels', 'components', 'values', 'coords', 'masks', 'linked', 'links', 'styles', 'joins', 'uuid', 'meta'},
+    2: {'labels', 'components', 'values', 'coords', 'masks', 'linked', 'links', 'styles', 'joins', 'uuid', 'meta', 'groups'},
+    3: {'labels', 'components', 'values', 'coords', 'masks', 'linked', 'links', 'styles', 'joins', 'uuid', 'meta', 'groups', 'sg_count'},
+    4: {'labels', 'components', 'values', 'coords', 'masks', 'linked', 'links', 'styles', 'joins', 'uuid', 'meta', 'groups', 'sg_count'},
 }
 
 
@@ -745,6 +745,13 @@ def protocol_sessions(rng, n_random):
     add('plain', lambda sp: None)
     add('linksame', lambda sp: sp['links'].append({'kind': 'LinkSame', 'a': [0, 'x'], 'b': [1, 'y']}))
     add('link2way', lambda sp: sp['links'].append({'kind': 'ComponentLink', 'a': [0, 'x'], 'b': [1, 'y'], 'f': 'double', 'g': 'halve'}))
+    # links with several inputs taken from different datasets, one of them the dataset of the output
+    add('mixedlink', lambda sp: sp['links'].extend([{'kind': 'LinkSame', 'a': [0, 'y'], 'b': [1, 'y']},
+                                                     {'kind': 'ComponentLink2', 'a': [1, 'y'], 'a2': [0, 'x'], 'b': [1, 'x']}]))
+    add('mixedlink2', lambda sp: sp['links'].extend([{'kind': 'LinkSame', 'a': [0, 'y'], 'b': [1, 'y']},
+                                                      {'kind': 'ComponentLink2', 'a': [0, 'x'], 'a2': [1, 'y'], 'b': [1, 'z']}]))
+    add('mixedlink-only', lambda sp: sp['links'].append({'kind': 'ComponentLink2', 'a': [1, 'y'], 'a2': [0, 'x'], 'b': [1, 'x']}))
+    add('twoinput-external', lambda sp: sp['links'].append({'kind': 'ComponentLink2', 'a': [0, 'x'], 'a2': [0, 'y'], 'b': [1, 'x']}))
     add('arith', lambda sp: sp['datasets'][0]['comps'].append({'name': 'q', 'kind': 'arith', 'expr': ['mul', 'x', 2]}))
     add('arith+link', lambda sp: (sp['datasets'][0]['comps'].append({'name': 'q', 'kind': 'arith', 'expr': ['add', 'x', 'y']}),
                                   sp['links'].extend([{'kind': 'LinkSame', 'a': [0, 'x'], 'b': [1, 'x']}, {'kind': 'LinkSame', 'a': [0, 'y'], 'b': [1, 'y']}])))
